@@ -72,6 +72,34 @@ pub fn front(src: &str) -> FrontObs {
 /// A program around policy definitions in constructor form: any subset of the three fields, each a
 /// literal, an environment value, another policy (itself a literal, or defined through names) or an
 /// undefined name; the policy is used as a minting policy, as an address, or not at all.
+/// A program around named types in declaration positions: parameters and environment values typed by
+/// a record, a variant, an alias, or a chain of aliases (ending in a primitive, a record, a list, or
+/// in nothing), used in amounts, datums and property accesses.
+pub fn type_position_probe(r: &mut Rng) -> String {
+    let mut s = String::from("party Alice;\n");
+    s.push_str("type Settings {\n    fee: Int,\n    tag: Bytes,\n}\n");
+    s.push_str("type Choice {\n    Left { n: Int, },\n    Right,\n}\n");
+    let chain = r.below(4) as usize;
+    let end = *r.pick(&["Int", "Bytes", "Settings", "List<Int>", "Choice", "Nowhere"]);
+    // type A0 = A1; ... type A<chain> = <end>;
+    for k in 0..chain {
+        s.push_str(&format!("type A{} = A{};\n", k, k + 1));
+    }
+    s.push_str(&format!("type A{} = {};\n", chain, end));
+    let pty = *r.pick(&["A0", "A0", "Settings", "Choice", "Int"]);
+    let ety = *r.pick(&["A0", "Settings", "Int", "Choice"]);
+    if r.chance(2, 3) {
+        s.push_str(&format!("env {{\n    config: {},\n}}\n", ety));
+    } else {
+        s.push_str("env {\n    config: Int,\n}\n");
+    }
+    s.push_str(&format!("\ntx pay(quantity: {}, extra: Int) {{\n    input src {{\n        from: Alice,\n        min_amount: Ada(extra),\n    }}\n", pty));
+    let amount = *r.pick(&["Ada(quantity)", "Ada(extra)", "Ada(quantity.fee)", "Ada(config)", "Ada(config.fee)"]);
+    let datum = *r.pick(&["", "        datum: config,\n", "        datum: quantity,\n", "        datum: Settings { fee: extra, tag: 0xAB, },\n", "        datum: Settings { fee: quantity, ...config },\n"]);
+    s.push_str(&format!("    output {{\n        to: Alice,\n        amount: {},\n{}    }}\n}}\n", amount, datum));
+    s
+}
+
 pub fn policy_probe(r: &mut Rng) -> String {
     let mut s = String::from("party A;\nenv {\n    h: Bytes,\n    s: Bytes,\n    u: UtxoRef,\n}\n");
     let hash_lit = format!("0x{}", "ab".repeat(28));
@@ -459,10 +487,18 @@ pub struct Tii {
 }
 
 pub fn emit_tii(dir: &std::path::Path, tag: &str, src: &str) -> Option<Tii> {
+    emit_tii_over(dir, tag, src, None)
+}
+
+/// `stale`: what an earlier build left at the output path (a rebuild must replace it entirely)
+pub fn emit_tii_over(dir: &std::path::Path, tag: &str, src: &str, stale: Option<&[u8]>) -> Option<Tii> {
     let src_path = dir.join(format!("{}.tx3", tag));
     let out_path = dir.join(format!("{}.tii", tag));
     std::fs::write(&src_path, src).ok()?;
     let _ = std::fs::remove_file(&out_path);
+    if let Some(old) = stale {
+        std::fs::write(&out_path, old).ok()?;
+    }
     let st = std::process::Command::new(tx3c_bin())
         .arg("build")
         .arg(&src_path)
@@ -569,7 +605,12 @@ pub fn run(ctx: &mut Ctx, focus: Focus) {
                 tii_emitted += 1;
                 let reps = if focus == Focus::C18 { 2 } else { 0 };
                 for k in 0..reps {
-                    match emit_tii(&scratch, &format!("p{}_{}", ci, k), text) {
+                    // the second repetition builds over the (longer) output of an earlier build
+                    let mut old = t.bytes.clone();
+                    old.extend(std::iter::repeat(b' ').take(64));
+                    old.extend(t.bytes.iter().take(700));
+                    let stale = if k == 1 { Some(old.as_slice()) } else { None };
+                    match emit_tii_over(&scratch, &format!("p{}_{}", ci, k), text, stale) {
                         Some(t2) => tii_same &= t2.bytes == t.bytes,
                         None => tii_same = false,
                     }
@@ -661,7 +702,7 @@ pub fn run(ctx: &mut Ctx, focus: Focus) {
         let n_probes = if ctx.thorough { 2000 } else { 200 };
         let mut probe_hist: std::collections::BTreeMap<String, usize> = Default::default();
         for _ in 0..n_probes {
-            let text = policy_probe(&mut r);
+            let text = if r.chance(1, 2) { policy_probe(&mut r) } else { type_position_probe(&mut r) };
             let obs = front(&text);
             let fac = if obs.parse_ok && !obs.analysis_panic { facade(&text) } else { 1 };
             let bad_tx = obs.txs.iter().find(|t| t.kind != 0 && t.kind != 9);
@@ -669,7 +710,7 @@ pub fn run(ctx: &mut Ctx, focus: Focus) {
             *probe_hist.entry(verdict.to_string()).or_default() += 1;
             if obs.analysis_panic || fac == 2 || (obs.accepted && bad_tx.is_some()) {
                 if impl_violations.len() < 20 {
-                    impl_violations.push(serde_json::json!({"index": -1, "ids": [141], "what": "a program with constructor-form policy definitions is accepted (or panics) and does not lower",
+                    impl_violations.push(serde_json::json!({"index": -1, "ids": [141], "what": "a text program outside the modelled core (policy definitions in constructor form; parameters and environment values typed by records, variants and alias chains) is accepted (or panics) and does not lower",
                         "source": text, "lowering": bad_tx.map(|t| t.err.clone()), "facade": fac, "analysis_panic": obs.analysis_panic}));
                 }
             }
